@@ -609,6 +609,9 @@ def _sig(e, params_positional=True):
         return "%s.%s" % (_sig(e[1]), e[2])
     if k == "vfield":
         return "(%s as %s).%s" % (_sig(e[1]), e[2], e[3])
+    if k == "agg" and e[1] in mir.NEWTYPES and len(e[3]) == 1:
+        # `CoinValue(x)` and `x.into()` are the same value: the wrapper is not rendered (conversions into a newtype are transparent in K3)
+        return _sig(e[3][0][1])
     if k == "call":
         return "%s(%s)" % (mir.short(e[1]), ", ".join(_sig(a) for a in e[2]))
     if k == "bin":
